@@ -72,6 +72,28 @@ def gen_case(rng):
     return {"kind": "service", "problem": pr, "shape": shape}
 
 
+def cold_sign_applies(pr):
+    """Known defect C03-cold-sufficiency-sign: in some group of streams (the site or a zone) every supplied cold utility
+    is too warm for the coldest hot stream, yet the code (testing with the wrong sign of dt_cont) adds no default."""
+    cold = [u for u in pr["utilities"] if u["type"] in ("Cold", "Both")]
+    if not cold:
+        return False
+    groups = [pr["streams"]] + [[s for s in pr["streams"] if s["zone"] == z or s["zone"].startswith(z + "/")]
+                                for z in {s["zone"].split("/")[0] for s in pr["streams"]} | {s["zone"] for s in pr["streams"]}]
+    for g in groups:
+        hot_targets = [float(val(s["t_target"])) - float(val(s["dt_cont"])) for s in g
+                       if float(val(s["t_supply"])) > float(val(s["t_target"])) or (float(val(s["t_supply"])) == float(val(s["t_target"])) and float(val(s["heat_flow"])) < 0)]
+        if not hot_targets:
+            continue
+        cu_t_max = min(hot_targets)
+        top = lambda u: max(u["t_supply"], u["t_target"] if u["t_target"] != u["t_supply"] else u["t_supply"] + 0.1)
+        reach = any(top(u) + u["dt_cont"] <= cu_t_max + 1e-9 for u in cold)
+        thinks = any(top(u) - u["dt_cont"] <= cu_t_max for u in cold)
+        if not reach and thinks:
+            return True
+    return False
+
+
 def val(x):
     return x["value"] if isinstance(x, dict) else x
 
@@ -118,6 +140,8 @@ def service_oracle(case):
         zero_dt = any(float(val(x.get("dt_cont", 1.0)) or 0.0) == 0.0 for x in pr["streams"] + pr["utilities"])
         if opts.get("DO_AREA_TARGETING") and zero_dt and isinstance(e, ValueError) and "Invalid temperature differences" in str(e):
             cause = "area_zero_driving_force"
+        if opts.get("DO_AREA_TARGETING") and isinstance(e, ValueError) and "composite curves to be balanced" in str(e) and cold_sign_applies(pr):
+            cause = "cold_sufficiency_sign"
         fails.append(("service_total", f"raised {type(e).__name__}: {str(e)[:120]} at {where} (shape {case.get('shape')}, options {opts})", cause))
         return fails, None
     cause_hp = None
